@@ -88,7 +88,7 @@ func runToolOnce(bin, dir string, args []string, timeout time.Duration) (toolRes
 		cmd.Process.Signal(syscall.SIGQUIT) // Go runtime prints all goroutine stacks
 		select {
 		case <-done:
-		case <-time.After(3 * time.Second):
+		case <-time.After(15 * time.Second):
 			cmd.Process.Kill()
 			<-done
 		}
